@@ -358,7 +358,7 @@ def run(ctx):
     if ctx.shard == 0 or ctx.thorough:
         for _ in range(2):
             one_case(ctx, ctx.rng(), wd, force_N=int(ctx.rng().choice([1100, 2050, 3000])))
-    n = ctx.n(300, 800)
+    n = ctx.n(900, 800)
     for _ in range(n):
         one_case(ctx, ctx.rng(), wd)
         for f in os.listdir(wd):
